@@ -704,6 +704,34 @@ func genCoreStyleValues(c *explore.C) Case {
 	return Case{Doc: d, Render: r}
 }
 
+// genCoreColourPairs: full product - two colour columns of one style (and the same column of a second style), each
+// cell with a value and a notation of its own; the table holds values whose digits read the same in another radix
+// (255 and 0x255, 10 and 0x10, 100 and 0x100): what one cell means never depends on another cell.
+var pairColours = []ssa.Value{col(0, 0, 0, 255), col(0, 0, 0x02, 0x55), col(0, 0, 0, 10), col(0, 0, 0, 0x10), col(0, 0, 0, 100), col(0, 0, 0x01, 0x00), col(0, 0, 0, 0), col(0xff, 0xff, 0xff, 0xff)}
+
+func genCoreColourPairs(c *explore.C) Case {
+	d := baseDoc(!c.Bool("v4"))
+	second := "SecondaryColour"
+	d.StyleAttrs = []string{"PrimaryColour", second}
+	v1 := pairColours[c.Choose("value1", len(pairColours))]
+	v2 := pairColours[c.Choose("value2", len(pairColours))]
+	radices := []int{4, 5, 0, 3}
+	r1 := radices[c.Choose("radix1", len(radices))]
+	r2 := radices[c.Choose("radix2", len(radices))]
+	d.Styles = []ssa.Style{{Name: "Default", Attrs: map[string]ssa.Value{"PrimaryColour": v1, second: v2}}}
+	if c.Bool("twostyles") {
+		// the second cell in the same column of another style
+		d.Styles = []ssa.Style{{Name: "Default", Attrs: map[string]ssa.Value{"PrimaryColour": v1, second: v1}},
+			{Name: "Other", Attrs: map[string]ssa.Value{"PrimaryColour": v2, second: v2}}}
+	}
+	d.EventCols = []string{"LM", "Style"}
+	d.Events = []ssa.Event{{Start: 100, End: 200, Style: "Default", Lines: [][]ssa.Run{{{Text: "x"}}}}}
+	r := ssa.DefaultRender(d)
+	r.Radix = r1
+	r.RadixOf = map[string]int{second: r2}
+	return Case{Doc: d, Render: r}
+}
+
 // genCoreNames: full product - style name x font name x speaker name class x the three ways an event refers to the
 // style (exact, '*'-prefixed, not at all) x version.
 func genCoreNames(c *explore.C) Case {
